@@ -11,7 +11,8 @@
    Domain.  Console input of the PROGRAM and the debugger's stdin are one stream in the real
    process.  This model gives the debugger the script ([arg], [stdin]) and the program its own
    input [inp]; it is faithful when the two do not interleave: [stdin] is empty, or the program
-   consumes no console input while the debugger is attached.  A line whose first word is `sudo`
+   consumes no console input while the debugger is attached (DbgStream.v drops this restriction:
+   one stream, read by both in the order in which they ask).  A line whose first word is `sudo`
    leaves the process (KNOWN_FINDINGS F15); [script_of_events] stops there and [text_in_domain]
    says so. *)
 From Coq Require Import List NArith ZArith Bool.
